@@ -42,10 +42,6 @@ def Led.binFix : Led → Option Nat
   | .binaryN => some fixInfixN
   | _ => none
 
-def Expr.isMember : Expr → Bool
-  | .member .. => true
-  | _ => false
-
 mutual
 
 /-- `Yields env t i j`: the tree `t` is read off the tokens `i, …, j-1`. -/
